@@ -3312,6 +3312,205 @@ def check_update_protocol(ck, R):
     ck.ob(R, ig.key(None, "monotone"), oki, "the generation only grows" if oki else "increment_global_fn_generation does not add 1", ig.where())
 
 
+_CLS_VIA_SELF = re.compile(r"(?:\btype\(self\)|\bself\.__class__)\.(\w+)\b")
+
+
+def check_locked_freezes_last_definition(ck, R):
+    """C03 (D55): what a locked cluster freezes is the version AS OF THE LAST FUNCTION DEFINITION.  The version of a function is
+    first computed while the function is being registered, when the functions defined after it do not exist yet; a locked
+    cluster that kept that version would make it depend on the order of the definitions.  Three parts, each decided by role:
+      (1) the exit that keeps the version because the cluster is locked is reached only under a comparison that implies
+          `stamp of this version >= generation of the last definition` (or >= the current generation, which is never smaller);
+      (2) the generation of the last definition is recorded, from the current generation and after the bump, on every way to
+          the registration of a function, and is never given another value;
+      (3) the stamp is given the current generation on every path through the recomputation (after the last bump of that
+          path), and elsewhere only where the version was confirmed for the current generation."""
+    ck.rule(R, "a locked cluster freezes the version as of the last function definition: the locked early exit is taken only for a "
+               "version stamped at or after the generation recorded when the last function was registered; that generation is recorded "
+               "at registration; the stamp is set when the version is computed", 4)
+    fa = FA(ck, MF + "._update_dependencies")
+    cfg = fa.cfg
+    recs = set(fa.nodes_all(fa.calls("_recompute_version")))
+    ck.need(recs, "_update_dependencies: _recompute_version call not found")
+    paths = _exit_paths(fa)
+    ck.need(paths is not None, "_update_dependencies: too many paths")
+    GEN = "MementoFunction._global_fn_generation"
+
+    def cls_text(t):
+        t = _CLS_VIA_SELF.sub(r"MementoFunction.\1", t)
+        return re.sub(r"\bself\.(_global_fn_generation)\b", r"MementoFunction.\1", t)
+
+    # class-level counters that registration sets from the current generation
+    ini = FA(ck, MF + ".__init__")
+    recorded = {}   # attribute -> [assignment statements in __init__]
+    for s_ in ini.stmts(ast.Assign):
+        if not ini.nodes(s_):
+            continue
+        at_ = ini.nodes(s_)[0]
+        for t in s_.targets:
+            if isinstance(t, ast.Attribute) and re.fullmatch(r"MementoFunction|type\(self\)|self\.__class__|cls", ini.xnorm(t.value, at_) or "") \
+                    and cls_text(ini.xnorm(s_.value, at_)) == GEN:
+                recorded.setdefault(t.attr, []).append(s_)
+
+    def is_locked(text):
+        e = _parse_lit(text)
+        return isinstance(e, ast.Attribute) and e.attr == "locked" and "get_cluster(" in text
+
+    def stamp_relation(text, pol):
+        """(stamp field, counter, operator as `stamp OP counter`) for a literal that compares a field of the instance with a
+        class-level generation counter, read with the polarity it has on the path."""
+        e = _parse_lit(cls_text(text))
+        if not (isinstance(e, ast.Compare) and len(e.ops) == 1):
+            return None
+        l_, r_ = e.left, e.comparators[0]
+        op = type(e.ops[0]).__name__
+
+        def inst(x):
+            return x.attr if isinstance(x, ast.Attribute) and isinstance(x.value, ast.Name) and x.value.id == "self" else None
+
+        def counter(x):
+            return x.attr if isinstance(x, ast.Attribute) and isinstance(x.value, ast.Name) and x.value.id == "MementoFunction" else None
+
+        if inst(l_) and counter(r_):
+            fld, cnt = inst(l_), counter(r_)
+        elif inst(r_) and counter(l_):
+            fld, cnt = inst(r_), counter(l_)
+            op = {"Gt": "Lt", "Lt": "Gt", "GtE": "LtE", "LtE": "GtE"}.get(op, op)
+        else:
+            return None
+        if not pol:
+            op = {"Gt": "LtE", "LtE": "Gt", "Lt": "GtE", "GtE": "Lt", "Eq": "NotEq", "NotEq": "Eq"}.get(op)
+        return (fld, cnt, op)
+
+    def first(path, nodes, after=-1):
+        for i_, x in enumerate(path):
+            if i_ > after and x in nodes:
+                return i_
+        return None
+
+    locked_paths = [(pth, lits) for (pth, lits) in paths if first(pth, recs) is None and any(is_locked(t) and pol for t, pol in lits.items())]
+    ck.need(locked_paths, "_update_dependencies: no exit for a locked cluster found")
+    lock_test = None
+    for n_ in cfg.nodes:
+        if lock_test is None and n_.kind == "test" and n_.id in cfg.reachable_nodes() and any(is_locked(t) for (t, _p) in fa._atoms(n_.ast, n_.id, True)):
+            lock_test = n_.ast
+    guards = set()
+    unguarded = None
+    for (pth, lits) in locked_paths:
+        rel = [r for r in (stamp_relation(t, pol) for t, pol in lits.items()) if r is not None
+               and r[2] in ("GtE", "Gt", "Eq") and (r[1] in recorded or "MementoFunction." + r[1] == GEN)]
+        if rel:
+            guards.update((r[0], r[1]) for r in rel)
+        else:
+            unguarded = unguarded or (pth, lits)
+    ok1 = unguarded is None and len(guards) == 1
+    if unguarded is not None:
+        seen_rel = sorted({"self.%s %s MementoFunction.%s" % (r[0], r[2], r[1]) for (_p, lits) in locked_paths
+                           for r in (stamp_relation(t, pol) for t, pol in lits.items()) if r is not None})
+        why1 = ("the exit for a locked cluster is taken for ANY calculated version%s: the version computed while the function was being registered "
+                "(before the functions defined after it existed) is frozen, so the same program gets different versions for different definition "
+                "orders, and a function defined before its callee keeps rules without the callee%s"
+                % ("" if not seen_rel else " (the comparison on the way there reads `%s`, which does not say the version is at least as recent as the last definition)" % "; ".join(seen_rel),
+                   ": path %s" % cfg.describe_path(unguarded[0])))
+    else:
+        why1 = "the locked exit compares more than one stamp / counter pair: %s" % sorted(guards)
+    ck.ob(R, fa.key(lock_test, "locked-exit-only-for-version-as-of-last-definition"), ok1,
+          "the locked exit is taken only for a version stamped at or after the last definition" if ok1 else why1, fa.where(lock_test))
+    if not ok1:
+        return
+    (stamp, counter_name) = next(iter(guards))
+    # (2) the counter is recorded at registration
+    if "MementoFunction." + counter_name != GEN:
+        regs = ini.nodes_all(ini.calls("register_function"))
+        incs = ini.nodes_all(ini.calls("increment_global_fn_generation"))
+        asn = ini.nodes_all(recorded.get(counter_name, []))
+        ok2 = bool(regs) and bool(asn) and all(ini.cfg.must_pass(asn, i) for i in regs) and bool(incs) and all(ini.cfg.must_pass(incs, a) for a in asn)
+        # no bump between the recording and the registration
+        if ok2:
+            for a in asn:
+                between = ini.cfg.reach([a], include_start=False)
+                if any(i in between and any(r in ini.cfg.reach([i], include_start=False) for r in regs) for i in incs):
+                    ok2 = False
+        ck.ob(R, ini.key(None, "last-definition-recorded"), ok2, "registration records the generation of the definition, after the bump" if ok2 else
+              "a function can be registered without `MementoFunction.%s` having been set to the generation of this definition (after the bump): "
+              "the locked exit then takes versions computed before this function existed for current" % counter_name, ini.where())
+        # nobody gives the counter another value
+        mod = ck.repo.module("memento")
+        for fi in mod.all_funcs():
+            for s_ in ast.walk(fi.node):
+                tg = s_.targets if isinstance(s_, ast.Assign) else [s_.target] if isinstance(s_, (ast.AugAssign, ast.AnnAssign)) else []
+                for t in tg:
+                    if isinstance(t, ast.Attribute) and t.attr == counter_name and _direct_parent_func_is(fi, s_):
+                        okw = isinstance(s_, ast.Assign) and cls_text(A.norm(s_.value)) == GEN or (fi.qual == MF + ".__init__" and s_ in recorded.get(counter_name, []))
+                        if not okw:
+                            fx = FA(ck, fi)
+                            okw = isinstance(s_, ast.Assign) and bool(fx.nodes(s_)) and cls_text(fx.xnorm(s_.value, fx.nodes(s_)[0])) == GEN
+                            ck.ob(R, fx.key(s_, "last-definition-only-from-generation"), okw, "the counter is set from the current generation" if okw else
+                                  "`%s` gives the generation of the last definition a value other than the current generation: versions older than the "
+                                  "last definition pass the locked exit" % A.short(s_, 60), fx.where(s_))
+    # (3) the stamp
+    stamp_asg = [s_ for s_ in fa.stmts(ast.Assign) if fa.nodes(s_) and any(A.dotted(t) == "self." + stamp for t in s_.targets)]
+    cur = set()
+    for s_ in stamp_asg:
+        for i in fa.nodes(s_):
+            if cls_text(fa.xnorm(s_.value, i)) == GEN:
+                cur.add(i)
+    incs_u = set(fa.nodes_all(fa.calls("increment_global_fn_generation")))
+    bad3 = None
+    for (pth, lits) in paths:
+        i_rec = first(pth, recs)
+        if i_rec is None:
+            continue
+        last_inc = max([k for k, x in enumerate(pth) if x in incs_u], default=-1)
+        if first(pth, cur, last_inc) is None:
+            bad3 = bad3 or pth
+    ok3 = bool(cur) and bad3 is None
+    ck.ob(R, fa.key(None, "stamp-set-when-computed"), ok3, "every recomputation stamps the version with the current generation" if ok3 else
+          "a recomputed version is not stamped with the current generation (`self.%s`)%s: in a locked cluster the version is recomputed on every "
+          "query, or - if the stamp keeps an earlier, larger value - a version older than the last definition is frozen"
+          % (stamp, (": path %s" % cfg.describe_path(bad3)) if bad3 else ""), fa.where())
+    # elsewhere the stamp is set only where the version was confirmed for the current generation
+    gen_eq = [t for (_p, lits) in paths for t in lits
+              if isinstance(_parse_lit(t), ast.Compare) and isinstance(_parse_lit(t).ops[0], ast.Eq) and GEN in cls_text(t) and "_global_fn_version_cache" in t]
+    for s_ in stamp_asg:
+        ns = set(fa.nodes(s_))
+        okc = True
+        for (pth, lits) in paths:
+            if not (ns & set(pth)) or first(pth, recs) is not None:
+                continue
+            val = cls_text(fa.xnorm(s_.value, next(i for i in pth if i in ns)))
+            confirmed = any(lits.get(t) is True for t in gen_eq)
+            if not (confirmed and (val == GEN or ("_global_fn_version_cache" in val and any(val in cls_text(t) for t in gen_eq)))):
+                okc = False
+        ck.ob(R, fa.key(s_, "stamp-only-when-current"), okc, "the stamp is set where the version is computed or confirmed for the current generation" if okc else
+              "`%s` stamps a version that was neither recomputed nor confirmed (cache entry of the current generation, no rule changed) on that "
+              "path: a version from before the last definition passes the locked exit" % A.short(s_, 60), fa.where(s_))
+    mod = ck.repo.module("memento")
+    for fi in mod.all_funcs():
+        if fi.qual == MF + "._update_dependencies":
+            continue
+        for s_ in ast.walk(fi.node):
+            tg = s_.targets if isinstance(s_, ast.Assign) else [s_.target] if isinstance(s_, (ast.AugAssign, ast.AnnAssign)) else []
+            for t in tg:
+                if isinstance(t, ast.Attribute) and t.attr == stamp and _direct_parent_func_is(fi, s_):
+                    v_ = getattr(s_, "value", None)
+                    neg = isinstance(v_, ast.UnaryOp) and isinstance(v_.op, ast.USub) and isinstance(v_.operand, ast.Constant) and isinstance(v_.operand.value, int) and v_.operand.value > 0
+                    fx = FA(ck, fi)
+                    ck.ob(R, fx.key(s_, "stamp-written-by-updater-only"), neg and isinstance(s_, ast.Assign),
+                          "the stamp is reset to 'never'" if neg else
+                          "`%s` in %s sets the stamp of the calculated version outside the version updater: the locked exit trusts a stamp nobody vouches for"
+                          % (A.short(s_, 60), fi.qual), fx.where(s_))
+
+
+def _direct_parent_func_is(fi, stmt):
+    """`stmt` belongs to `fi` itself and not to a function nested in it"""
+    for n in ast.walk(fi.node):
+        if n is not fi.node and isinstance(n, (ast.FunctionDef, ast.AsyncFunctionDef, ast.Lambda)):
+            if any(x is stmt for x in ast.walk(n)):
+                return False
+    return True
+
+
 def _rule_identity_fields(ck):
     base = ck.repo.cls(CH + ".HashRule")
     out = None
